@@ -42,9 +42,7 @@ Lemma bare_agree n y : is_ident n = true -> good y ->
 Proof.
   intros Hid Hg.
   assert (Hok : ty_ok (bare n) = true). { unfold bare. cbn [ty_ok]. rewrite Hid. reflexivity. }
-  assert (C1 : kf_result_ok_has_comma (rty_of (bare n)) = false). { simpl. rewrite andb_false_r. reflexivity. }
-  assert (C2 : kf_tuple_elem_has_comma (rty_of (bare n)) = false) by reflexivity.
-  destruct (readers_agree (bare n) y Hok Hg C1 C2) as [A B].
+  destruct (readers_agree (bare n) y Hok Hg) as [A B].
   assert (Et : tstr (bare n) = n) by reflexivity. rewrite Et in A, B.
   destruct Hg as [Hc Hh]. assert (Hres : y <> L "Result"). { intros ->. vm_compute in Hh. discriminate. }
   split.
@@ -83,8 +81,6 @@ Proof. unfold spec_defs, defs, nested_defs. induction p as [|fl p IH]; intros H;
 Section Lift.
 Variable p : project.
 Hypothesis Hdom : in_domain p = true.
-Hypothesis K1 : kf_c07_result_map p = false.
-Hypothesis K2 : kf_c07_tuple_generic p = false.
 Hypothesis K5 : kf_c07_field_result p = false.
 Hypothesis K6 : kf_c07_odd_name p = false.
 Hypothesis K7 : kf_c07_inline_mod p = false.
@@ -115,11 +111,6 @@ Proof.
     destruct (lookup_param v (fn_params f)) as [t|]; [|discriminate]. exists t. auto.
 Qed.
 
-Lemma class_parts t : In t (all_types p) ->
-  kf_result_ok_has_comma (rty_of t) = false /\ kf_tuple_elem_has_comma (rty_of t) = false.
-Proof. intros Ht. unfold kf_c07_result_map, kf_c07_tuple_generic in *.
-  apply existsb_false_Forall in K1. apply existsb_false_Forall in K2.
-  rewrite Forall_forall in *. auto. Qed.
 
 Lemma lookup_same n : lookup p n = spec_lookup p n.
 Proof. unfold lookup, spec_lookup. rewrite find_files.
@@ -160,8 +151,8 @@ Proof. intros Hd Hs Hk Hf. unfold all_types. apply in_or_app. right. unfold fiel
 
 Lemma type_agree t y : In t (all_types p) -> good y ->
   (In y (extract_type_names (tstr t)) <-> In y (leaf_names t)) /\ (In y (ts_of (tstr t)) <-> In y (ok_names t)).
-Proof. intros Ht Hg. destruct dom_parts as (Hty & _). destruct (class_parts t Ht) as (C1 & C2).
-  destruct (readers_agree t y (Hty t Ht) Hg C1 C2) as [A B]. split; auto. Qed.
+Proof. intros Ht Hg. destruct dom_parts as (Hty & _).
+  destruct (readers_agree t y (Hty t Ht) Hg) as [A B]. split; auto. Qed.
 
 Lemma fields_agree n y : resolvable p n = true -> good y ->
   (In y (deps_of p n) <-> In y (spec_succ p n)) /\ (In y (concat (raw_fields_ts p n)) <-> In y (spec_succ p n)).
@@ -293,14 +284,13 @@ End Lift.
 
 (* C09: outside the classes every schema reference to a defined type is a recorded dependency *)
 Theorem edges_recorded_from_classes p : in_domain p = true ->
-  kf_c07_result_map p = false -> kf_c07_tuple_generic p = false ->
   kf_c07_field_result p = false -> kf_c07_odd_name p = false -> kf_c07_inline_mod p = false ->
   forallb (fun n => forallb (fun v => negb (resolvable p v) || smemb v (deps_of p n)) (concat (raw_fields_ts p n))) (dnames p) = true.
 Proof.
-  intros Hdom K1 K2 K5 K6 K7. apply forallb_forall. intros n Hn. apply forallb_forall. intros v Hv.
+  intros Hdom K5 K6 K7. apply forallb_forall. intros n Hn. apply forallb_forall. intros v Hv.
   unfold dnames in Hn. apply filter_In in Hn as [_ Hn].
   destruct (resolvable p v) eqn:Ev; [|reflexivity]. simpl.
   destruct (defined_good p Hdom K6 K7 v Ev) as [Hg _].
-  destruct (fields_agree p Hdom K1 K2 K5 K7 n v Hn Hg) as [A B].
+  destruct (fields_agree p Hdom K5 K7 n v Hn Hg) as [A B].
   apply smemb_true. apply A. apply B. exact Hv.
 Qed.
